@@ -10,7 +10,7 @@ META = {
              "(mutual exclusion and no blocked waiter), grants in arrival order with nobody skipped unless cancelled while waiting, "
              "stale/foreign unlock is an error that changes nothing, head removal hands over to exactly the next caller, no ready channel "
              "closed twice, gateway TTL always positive; closed counterexamples refutes_wakeLast / refutes_wakeNone / refutes_doubleClose / "
-             "refutes_ttlFloor for mutated shapes; classify_sound ties the decision to 13 facts extracted from lock.go and gateway.go; the "
+             "refutes_ttlFloor for mutated shapes; classify_sound ties the decision to 14 facts (incl. the id source: uuid vs per-queue counter; foreign_unlock_noop is proved over the multi-key map model for globally unique ids, refutes_ticketIds otherwise) extracted from lock.go and gateway.go; the "
              "model is run against the real lock under forced schedules (hooks lock.enq/rm/select/acq/cancel/ttl), including the "
              "cancel-vs-grant race of Lock's select and TTL expiry through a hook-stopped watchdog."),
     "note": ("Trusted: Lean kernel; extract/c14.go; harness/c14.go + app/verifhook; Go channel/select/sync.Mutex semantics (each q.mu "
@@ -25,6 +25,7 @@ FINDINGS = {
     "C14-no-wake": "remove does not wake the next waiter when the head leaves: waiters stay blocked with no holder",
     "C14-ready-closed-twice": "remove closes the head's ready channel again when a waiter leaves (panic: close of closed channel)",
     "C14-ttl-floor": "the gateway can hand the locker a TTL <= 0",
+    "C14-foreign-id-unlock": "lock ids are not globally unique: an Unlock with an id issued for another key releases / evicts a caller of this key",
 }
 
 
@@ -46,6 +47,9 @@ def spec_violated(rep):
             if bad in line:
                 return "`%s` → `%s`: the real lock %s" % (op, line, "panicked" if bad == "panic" else "left a caller blocked / did not react")
         w = line.split()
+        if op.startswith("unlockx ") and len(w) > 3 and w[0] == "unlockx" and w[3].startswith("ok"):
+            return ("unlock with a foreign ID released another caller's lock: `%s` (an id issued on another key) was accepted on key %s (%s)"
+                    % (op, w[2], line))
         if op.startswith("lock ") and len(w) > 1 and w[0] == "enq":
             key_of[w[1]] = op.split()[1]
         L = P.lists_of(line)
@@ -69,7 +73,7 @@ def run(ctx):
     K.lean_verdict(ctx)
     corrs = []
     if K.build_hx(ctx) and K.build_drv(ctx):
-        args = ["%s=%s" % (k, facts.get(k, "unknown")) for k in ("wake", "wakeOnlyIfHead", "ttlThresh", "ttlFloor", "gwWithoutCancel")]
+        args = ["%s=%s" % (k, facts.get(k, "unknown")) for k in ("wake", "wakeOnlyIfHead", "ttlThresh", "ttlFloor", "gwWithoutCancel", "idSource")]
         c = P.correspondence_observed(ctx, "C14", args, annotate)
         corrs.append(("C14", args, c))
     else:
@@ -77,6 +81,17 @@ def run(ctx):
                       tag="build", found_input=False)
     K.decide_standard(ctx, corrs, FINDINGS)
     K.report_mismatch(ctx, spec_violated)
+    # Spec oracle over the whole run, on the implementation's replies only
+    if not getattr(ctx, "pending_mismatch", None):
+        for _, _, c in corrs:
+            if c.err:
+                continue
+            for cs in c.cases:
+                rep = K.case_replay(c, cs)
+                why = spec_violated(rep)
+                if why:
+                    ctx.violation("implementation violates the property: " + why, rep, tag="impl")
+                    break
     if ctx.thorough:
         ok, out = K.leanchecker(ctx, ["Hv.Props.C14", "Hv.Conc.LockLemmas", "Hv.Conc.Lock"])
         ctx.cov["leanchecker"] = "ok" if ok else out[-500:]
